@@ -67,6 +67,24 @@ func victimMain() {
 		save()
 		os.Exit(4)
 	}
+	if os.Getenv("C11_VICTIM_MODE") == "startonly" {
+		// torn-list probe: report the state the client came up with, nothing else
+		st := c.VerifState()
+		for k, s := range st.Servers {
+			res.Servers = append(res.Servers, hex.EncodeToString(k[:]))
+			if s.Banned {
+				res.Banned = append(res.Banned, hex.EncodeToString(k[:]))
+			}
+		}
+		save()
+		done := make(chan struct{})
+		go func() { c.Close(); close(done) }()
+		select {
+		case <-done:
+		case <-time.After(10 * time.Second):
+		}
+		os.Exit(0)
+	}
 	os.WriteFile(filepath.Join(ctl, "ready"), nil, 0644)
 	for dl := time.Now().Add(40 * time.Second); !exists(filepath.Join(ctl, "go")); time.Sleep(time.Millisecond) {
 		if time.Now().After(dl) {
@@ -309,4 +327,92 @@ func firstLines(path string) string {
 		b = b[:1500]
 	}
 	return string(b)
+}
+
+// tornListRestart: after the rounds (client closed, bans learned and saved): the saved server list is damaged
+// (cut inside an entry, so that it is no well-formed list any more) and a client is started on the
+// directory in a process of its own (a refused start must not leave a test-mode watchdog in this one).
+// A client that refuses to start is fine; one that starts must still know every ban it had learned.
+func (x *ctx) tornListRestart() {
+	if len(x.prevMem) == 0 || x.migrated {
+		return
+	}
+	mapPath := filepath.Join(x.cdir, client.GCAServerMapFile)
+	orig, err := os.ReadFile(mapPath)
+	if err != nil || len(orig) < 40 {
+		return
+	}
+	// the cut falls INSIDE an entry: what remains is not a well-formed list (a prefix that ends on an entry
+	// boundary is a valid shorter list; a crash of the device in the middle of a rewrite is not server
+	// behaviour and not judged here)
+	cut := 1 + int(x.cc.Seed%int64(len(orig)-1))
+	for tries := 0; tries < len(orig); tries++ {
+		if _, err := refenc.ParseServerMap(orig[:cut]); err != nil {
+			break
+		}
+		cut = 1 + (cut % (len(orig) - 1))
+	}
+	if _, err := refenc.ParseServerMap(orig[:cut]); err == nil {
+		return
+	}
+	ctl := filepath.Join(x.dir, "ctl-torn")
+	os.MkdirAll(ctl, 0755)
+	self, err := os.Executable()
+	if err != nil {
+		return
+	}
+	x.trace("saved server list cut to %d of %d bytes; a fresh process starts the client", cut, len(orig))
+	os.WriteFile(mapPath, orig[:cut], 0644)
+	defer os.WriteFile(mapPath, orig, 0644)
+	cmd := exec.Command(self, "victim", x.cdir, fmt.Sprint(x.latest), ctl)
+	cmd.Env = append(os.Environ(), "GOTRACEBACK=single", "C11_VICTIM_MODE=startonly")
+	se, _ := os.Create(filepath.Join(x.dir, "torn.stderr"))
+	defer se.Close()
+	cmd.Stderr = se
+	done := make(chan error, 1)
+	if cmd.Start() != nil {
+		return
+	}
+	go func() { done <- cmd.Wait() }()
+	select {
+	case <-done:
+	case <-time.After(60 * time.Second):
+		cmd.Process.Kill()
+		<-done
+		x.r.Count("tornlist.probe_timed_out", 1)
+		return
+	}
+	raw, err := os.ReadFile(filepath.Join(ctl, "result.json"))
+	var res victimResult
+	if err != nil || json.Unmarshal(raw, &res) != nil {
+		x.r.Count("tornlist.no_result", 1) // e.g. the client panicked on the damaged file: a refusal as well
+		return
+	}
+	x.r.Eval(1)
+	if res.StartErr != "" {
+		x.r.Count("tornlist.start_refused", 1)
+		return
+	}
+	x.r.Count("tornlist.started", 1)
+	banned := map[string]bool{}
+	for _, k := range res.Banned {
+		banned[k] = true
+	}
+	for k := range x.prevMem {
+		if !banned[hex.EncodeToString(k[:])] {
+			x.r.Violationf("ban-knowledge-lost", x.replay(map[string]interface{}{"label": "torn-list restart", "server": hex.EncodeToString(k[:]), "cut": cut, "of": len(orig)}),
+				"restart on a server list cut to %d of %d bytes: the client started, and server %x, which it knew to be banned (learned and saved before), is %s", cut, len(orig), k[:6],
+				map[bool]string{true: "listed as not banned", false: "no longer listed"}[contains(res.Servers, hex.EncodeToString(k[:]))])
+			return
+		}
+	}
+}
+
+func contains(l []string, s string) bool {
+	for _, x := range l {
+		if x == s {
+			return true
+		}
+	}
+	return false
 }
